@@ -45,9 +45,38 @@ def fanout_anchor(ctx):
         raise AnalysisError("fan-out loop `for <dest> in self._destinations` not found exactly once in Destinations.send (found %d): the exception-containment analysis has no anchor" % len(loops))
 
 
+def _return_value_witness(chk, send):
+    """A destination's return value is unspecified (file.write returns a count, callbacks return True, ...): code that hands each
+    destination to a helper and takes the helper's result as "the failure" may not let the destination's own return value through."""
+    ctx = chk.ctx
+    for n in iter_own_nodes(send.node):
+        if not isinstance(n, (ast.ListComp, ast.GeneratorExp, ast.For)):
+            continue
+        it = n.generators[0].iter if not isinstance(n, ast.For) else n.iter
+        tgt = n.generators[0].target if not isinstance(n, ast.For) else n.target
+        if "self._destinations" not in unparse(it) or not isinstance(tgt, ast.Name):
+            continue
+        for c in ast.walk(n):
+            if isinstance(c, ast.Call) and isinstance(c.func, ast.Name) and any(isinstance(a, ast.Name) and a.id == tgt.id for a in c.args):
+                for h in ctx.targets(send, c):
+                    idx = [i for i, a in enumerate(c.args) if isinstance(a, ast.Name) and a.id == tgt.id][0]
+                    if idx >= len(h.pos_params):
+                        continue
+                    dp = h.pos_params[idx]
+                    for r in iter_own_nodes(h.node):
+                        if isinstance(r, ast.Return) and isinstance(r.value, ast.Call) and isinstance(r.value.func, ast.Name) and r.value.func.id == dp:
+                            chk.bad("C08.report", "send:only-raised-exceptions-are-failures", chk.where(h, r.lineno),
+                                    "%s returns `%s`, the destination's own return value, where its caller expects the exception the destination raised (or None): a destination that accepts "
+                                    "the message but returns anything (file.write's count, True, ...) is reported as failed -- a spurious eliot:destination_failure for every message"
+                                    % (h.name, unparse(r.value)[:50]))
+                            return True
+    return False
+
+
 def fanout_loop(chk):
     send = _send(chk)
     cfg = chk.ctx.cfg(send)
+    _return_value_witness(chk, send)
     WHOLE = ("self._destinations", "self._destinations[:]", "list(self._destinations)", "tuple(self._destinations)", "self._destinations.copy()")
     loops = common.for_loops(cfg, lambda st: unparse(st.iter) in WHOLE)
     if not loops:
